@@ -141,7 +141,7 @@ def rule_guard(facts):
         else:
             r.ok("path", {"fn": fn, "over the limit": "Err only"})
         grown = tm.of_operand(blk.term.args[1]) if len(blk.term.args) > 1 else None
-        if grown == tested and pat.has_op(tested, ("Add",)) and pat.has_const(tested, 1):
+        if grown == tested:
             r.ok("term", {"fn": fn, "resize(n)": flow.show(grown)[:60], "tested": flow.show(tested)[:60]})
         else:
             r.bad("%s|guard-quantity" % fn, "the length tested against the limit (%s) is not the length the buffer grows to (%s)"
